@@ -44,6 +44,24 @@ inline Json::Value defaultProc(Rng& rng) {
 static const char* kTopNames[] = {"a", "ab", "a.slice", "a-1", "b", "sys"};
 static const char* kSubNames[] = {"x", "xy", "y", "x.scope"};
 
+// Irregular tick spacing: a tick one nanosecond early or late, or a long gap
+// (the daemon was stalled, the previous tick was slow).
+inline void addTickDelays(Rng& rng, Json::Value& plan, int ticks) {
+  Json::Value delays(Json::arrayValue);
+  for (int i = 0; i < ticks; i++) {
+    int64_t d = 0;
+    double u = rng.unit();
+    if (u < 0.1)
+      d = -1;
+    else if (u < 0.2)
+      d = 1;
+    else if (u < 0.3)
+      d = rng.pick<int64_t>({1000000000LL, 6000000000LL, 39000000000LL});
+    delays.append((Json::Int64)d);
+  }
+  plan["delays"] = delays;
+}
+
 inline Json::Value genEngineWorld(Rng& rng, bool rich) {
   Json::Value w(Json::objectValue);
   Json::Value cgs(Json::arrayValue);
